@@ -1,6 +1,7 @@
 (* C20 — rebuilt source parses back to the same tree (reference printer/parser;
    the real rebuilder is compared differentially). *)
 From PV Require Import Base.Common Base.Tok Model.RefParser Proofs.RefParserProofs Proofs.RefParserRange.
+From PV Require Base.IR Model.LexAlpha Model.Escape Proofs.LexAlphaProofs Proofs.EscapeProofs.
 
 (* parse . print = id on every tree the parser can return ... *)
 Theorem C20_parse_print_parse : forall fuel ts ds,
@@ -15,5 +16,69 @@ Theorem C20_print_parse_idempotent : forall ds,
     option_map print_module (parse_module fuel (print_module ds)) = Some (print_module ds).
 Proof. exact print_parse_idempotent. Qed.
 
+(* The part of the REAL rebuilder that prints string literals and import paths
+   (rebuilder.rs: `"` + every byte through std::ascii::escape_default + `"`), against the
+   model of the real first-generation lexer (Model/LexAlpha.v): for EVERY byte string, of any
+   length, the printed literal is printable ASCII (so `from_utf8_lossy` changes nothing) and
+   lexes back to exactly one string token carrying the same bytes - alone, after any prefix
+   that is not inside an open quote and before ANY suffix, and in the two lines the rebuilder
+   prints them in. *)
+Theorem C20_rebuilt_string_is_ascii : forall b, (b < 256)%N ->
+  Forall (fun c => (32 <= c <= 126)%N) (Escape.escape_default b).
+Proof. exact EscapeProofs.escape_default_ascii. Qed.
+
+Theorem C20_rebuilt_string_lexes_back : forall bs, Forall (fun b => (b < 256)%N) bs ->
+  LexAlpha.lex_alpha (Escape.rebuild_string bs) =
+  [LexAlpha.mk KStringLiteral 0%Z None bs 0 (LexAlpha.len (Escape.rebuild_string bs)) 1 0].
+Proof. exact EscapeProofs.rebuilt_string_lexes_back. Qed.
+
+Theorem C20_rebuilt_string_lexes_back_in_context : forall pre off ln,
+  LexAlphaProofs.boundary pre [34%N] ->
+  forall bs post, Forall (fun b => (b < 256)%N) bs ->
+  LexAlpha.lex_line (pre ++ Escape.rebuild_string bs ++ post) off ln =
+  removelast (LexAlpha.lex_line (pre ++ [34%N; 34%N]) off ln)
+  ++ LexAlpha.mk KStringLiteral 0%Z None bs (off + LexAlpha.len pre)
+       (off + LexAlpha.len pre + LexAlpha.len (Escape.rebuild_string bs)) ln (LexAlpha.len pre)
+  :: LexAlpha.lex_line_fuel (length post) ln (off + LexAlpha.len pre + LexAlpha.len (Escape.rebuild_string bs))
+       (LexAlpha.len pre + LexAlpha.len (Escape.rebuild_string bs)) post.
+Proof. exact EscapeProofs.rebuilt_string_in_context. Qed.
+
+Theorem C20_rebuilt_import_lexes_back : forall path, Forall (fun b => (b < 256)%N) path ->
+  let n := LexAlpha.len (Escape.rebuild_string path) in
+  LexAlpha.lex_alpha (Escape.rebuild_import [] path) =
+  [LexAlpha.mk KImport 0%Z None [] 0 6 1 0;
+   LexAlpha.mk KStringLiteral 0%Z None path 7 (7 + n) 1 7;
+   LexAlpha.mk KSemicolon 0%Z None [] (7 + n) (7 + n + 1) 1 (7 + n)].
+Proof. exact EscapeProofs.rebuilt_import_lexes_back. Qed.
+
+(* Integer and character literals are printed as `0x` + lowercase hexadecimal digits: the value
+   comes back, the kind of a character literal does not (the property allows the spelling of a
+   literal to change; the check merges the literal kinds accordingly). *)
+Theorem C20_rebuilt_bit_integer_lexes_back : forall v, (v < 2 ^ 128)%N ->
+  LexAlpha.lex_alpha (Escape.rebuild_bit_integer v) =
+  [LexAlpha.mk KBitInteger (Z.of_N v) None [] 0 (LexAlpha.len (Escape.rebuild_bit_integer v)) 1 0].
+Proof. exact EscapeProofs.rebuilt_bit_integer_lexes_back. Qed.
+
+Theorem C20_character_literal_kind_not_preserved :
+  exists b, (b < 256)%N /\
+    LexAlpha.lex_alpha [39%N; b; 39%N] = [LexAlpha.mk KCharLiteral (Z.of_N b) None [] 0 3 1 0] /\
+    map kind (LexAlpha.lex_alpha (Escape.rebuild_char b)) <> [KCharLiteral].
+Proof. exact EscapeProofs.rebuilt_char_lexes_back_refuted. Qed.
+
+(* A lexer that accepts an escaped quote only of the kind that opened the literal (a seeded
+   change) loses the round trip on an apostrophe. *)
+Theorem C20_quote_specific_escape_refuted :
+  exists bs, Forall (fun b => (b < 256)%N) bs /\
+    Escape.lex_alpha_mutant (Escape.rebuild_string bs) <>
+    [LexAlpha.mk KStringLiteral 0%Z None bs 0 (LexAlpha.len (Escape.rebuild_string bs)) 1 0].
+Proof. exact EscapeProofs.mutant_round_trip_refuted. Qed.
+
 Print Assumptions C20_parse_print_parse.
 Print Assumptions C20_print_parse_idempotent.
+Print Assumptions C20_rebuilt_string_is_ascii.
+Print Assumptions C20_rebuilt_string_lexes_back.
+Print Assumptions C20_rebuilt_string_lexes_back_in_context.
+Print Assumptions C20_rebuilt_import_lexes_back.
+Print Assumptions C20_rebuilt_bit_integer_lexes_back.
+Print Assumptions C20_character_literal_kind_not_preserved.
+Print Assumptions C20_quote_specific_escape_refuted.
